@@ -90,7 +90,25 @@ theorem C14_resolve_nearest (o : POpts) :
     (∀ x, o.lopt .DD = some x → resolveL o .DD = .ok x) ∧
     (∀ x, o.vopt .SV = none → o.vopt .V = some x → resolveV o .SV = .ok x) ∧
     (∀ x, o.vopt .SV = some x → resolveV o .SV = .ok x) := by
-  refine ⟨?_, ?_, ?_, ?_⟩ <;> intro x <;> intros <;> simp [resolveL, resolveV, lParent, vParent, *]
+  refine ⟨?_, ?_, ?_, ?_⟩ <;> intro x <;> intros <;> simp [resolveL, resolveV, lMro, vMro, List.findSome?, *]
+
+/-- … also for a class with several bases: the lookup follows the method resolution order
+    (MV(SV, MX): MV, SV, MX, Vertex), so a configured SECOND base wins over the root class, and
+    a configured first base wins over the second -/
+theorem C14_resolve_mro (o : POpts) :
+    (∀ x, o.vopt .MV = none → o.vopt .SV = none → o.vopt .MX = some x → resolveV o .MV = .ok x) ∧
+    (∀ x, o.vopt .MV = none → o.vopt .SV = some x → resolveV o .MV = .ok x) ∧
+    (∀ x, o.vopt .MV = none → o.vopt .SV = none → o.vopt .MX = none → o.vopt .V = some x →
+      resolveV o .MV = .ok x) := by
+  refine ⟨?_, ?_, ?_⟩ <;> intro x <;> intros <;> simp [resolveV, vMro, List.findSome?, *]
+
+/-- … and for a link class deriving from both edge classes (`DU(DirectedEdge, UnDirectedEdge)`):
+    its own entry first, else DirectedEdge's, else UnDirectedEdge's -/
+theorem C14_resolve_mro_link (o : POpts) :
+    (∀ x, o.lopt .DU = none → o.lopt .D = some x → resolveL o .DU = .ok x) ∧
+    (∀ x, o.lopt .DU = none → o.lopt .D = none → o.lopt .U = some x → resolveL o .DU = .ok x) ∧
+    (∀ x, o.lopt .DU = some x → resolveL o .DU = .ok x) := by
+  refine ⟨?_, ?_, ?_⟩ <;> intro x <;> intros <;> simp [resolveL, lMro, List.findSome?, *]
 
 end R
 end EG
